@@ -200,6 +200,7 @@ def judgeTree (cfg : Cfg) (ln : Nat) (pb : Prob) (rt : RefTable) (sv : Solved) (
   let mut nbad := 0
   let mut kinds : List String := []
   let mut badZero := 0          -- mismatching valuations with at least one zero parameter
+  let mut badInfeasible := 0    -- mismatching valuations where the tree yields a point outside the feasible region
   let mut details : List String := []
   for g in rt.groups do
     -- a group is judged at its valuations; with a big parameter only a mismatch that persists at
@@ -223,11 +224,14 @@ def judgeTree (cfg : Cfg) (ln : Nat) (pb : Prob) (rt : RefTable) (sv : Solved) (
         ++ "/" ++ (match a with | .bottom => "bottom" | .point _ => "point" | .unknown => "unknown")
       if !kinds.contains kind then kinds := kinds ++ [kind]
       if θ.any (· == 0) then badZero := badZero + 1
+      match r with
+      | .point p => if !pb.P.feasibleB θ p then badInfeasible := badInfeasible + 1
+      | _ => pure ()
       if details.length < 40 then
         details := details ++ [s!"detail {ln} theta={thetaStr θ} tree={resStr r} ref={ansStr a}"]
   if nbad > 0 then
     let obl := if sv.status == "UNF" then "unfeasible-but-feasible" else "eval"
-    IO.println s!"MISMATCH {ln} {obl} bad={nbad} evals={evals} kinds={",".intercalate kinds} bad_with_zero_param={badZero} scoped={isScoped} nodes={tree.size} arts={tree.numArts} big={pb.big.isSome}"
+    IO.println s!"MISMATCH {ln} {obl} bad={nbad} evals={evals} kinds={",".intercalate kinds} bad_with_zero_param={badZero} bad_infeasible_point={badInfeasible} scoped={isScoped} nodes={tree.size} arts={tree.numArts} big={pb.big.isSome}"
     for d in details do IO.println d
     return false
   if !isScoped then
